@@ -285,6 +285,22 @@ func (s *Schema) control() (err error) {
 		return fmt.Errorf("%T %w: %s", s.object, ErrStructureChanged, err)
 	}
 
+	// controlling that the index (which may come from a file) is
+	// coherent with the fields it indexes
+	for fpath, fi := range s.ObjectIndex.Fields {
+		var cast string
+		fd, ok := s.Fields[fpath]
+		if !ok {
+			return fmt.Errorf("%w: index on unknown field %s", ErrBadSchema, fpath)
+		}
+		if cast, err = fd.castOrErr(); err != nil {
+			return fmt.Errorf("%w: index on field %s: %s", ErrBadSchema, fpath, err)
+		}
+		if fi.Cast != cast || fi.Name != fpath {
+			return fmt.Errorf("%w: index of field %s has name %s and cast %s, expecting cast %s", ErrBadSchema, fpath, fi.Name, fi.Cast, cast)
+		}
+	}
+
 	// controlling index in memory
 	if err = s.ObjectIndex.control(); err != nil {
 		return
